@@ -4,21 +4,47 @@ from rxvc.contract import OpContract
 
 OPS = "reactivex/operators/"
 
-CONTRACTS = [
-    OpContract(
+def _absolute(rel):
+    """the same contract for an absolute due time (a datetime: tagged integer instant)"""
+    import copy
+    c = copy.copy(rel)
+    c.name = "delay/absolute"
+    c.params = {"duetime": "datetime", "absolute": "const:True"}
+    return c
+
+
+_REL = OpContract(
         name="delay/relative", props=["C15"], timed=True, file=OPS + "_delay.py", func="observable_delay_timespan",
-        call="observable_delay_timespan(source, duetime, scheduler)", params={"duetime": "nat"}, scheduler="scheduler",
+        call="observable_delay_timespan(source, duetime, scheduler)", params={"duetime": "nat", "absolute": "const:False"}, scheduler="scheduler",
         spec="specs.c15:delay", spec_args={"q": "seq[tupnotif]"},
         cells={"queue": "seq[tsnotif]", "active": "cell:bool", "running": "cell:bool", "exception": "val"},
-        inv="same(queue, s.q) and active[0] == s.active and not running[0] and is_none(exception) and duetime_ == duetime",
+        # the real queue IS the spec's; a completion record can only be its last record, and there is none while the source is live
+        inv="same(queue, s.q) and active[0] == s.active and not running[0] and is_none(exception) and duetime_ == s.d "
+            "and completion_last(queue) and (s.src_done or all_elements(queue))",
+        live="not s.src_done",
         loops={
             # the drain loop of a tick: what it has delivered so far + the due prefix still queued = the due prefix of the whole queue
             ("observable_delay_timespan.subscribe.on_next.action", 0): dict(
-                inv="same(emitted + due_prefix_vals(queue, now_), due_prefix_vals(old_queue, now_)) and "
+                # ... and once it has delivered the completion (the loop goes on): everything due was delivered and nothing is left
+                inv="completion_last(queue) and implies(all_elements(old_queue), all_elements(queue)) and ("
+                    "(len(queue) == 0 and same(emitted, due_prefix_vals(old_queue, now_)) and due_prefix_completes(old_queue, now_)) if terminated else "
+                    "(same(emitted + due_prefix_vals(queue, now_), due_prefix_vals(old_queue, now_)) and "
                     "due_prefix_completes(queue, now_) == due_prefix_completes(old_queue, now_) and "
-                    "same(drop_due_prefix(queue, now_), drop_due_prefix(old_queue, now_))",
-                old=["queue"], havoc={"queue": "seq[tsnotif]"}, decreases="len(queue)", after_terminal="rest-empty"),
+                    "same(drop_due_prefix(queue, now_), drop_due_prefix(old_queue, now_))))",
+                old=["queue"], havoc={"queue": "seq[tsnotif]"}, decreases="len(queue)", may_terminate="C"),
         },
         timers={"tick": {"created_in": "source.on_next", "spec": "on_fire", "inv": "s.active"}},
-    ),
-]
+)
+
+_DWM = OpContract(
+    name="delay_with_mapper", props=["C15", "C09"], file=OPS + "_delaywithmapper.py", func="delay_with_mapper_",
+    call="delay_with_mapper_(mapper, None)(source)", params={"mapper": "callback:source"},
+    spec="specs.c15:delay_with_mapper",
+    cells={"at_end": "cell:bool", "delays.disposable": "seq"},
+    # one entry of the composite per element that is still held
+    inv="at_end[0] == s.at_end and len(delays.disposable) == s.pending",
+    families={"delay": dict(spec=("delay_next", "delay_error", "delay_completed"), id_local="x", once=True,
+                            inv="contains(delays.disposable, d) and s.pending >= 1")},
+)
+
+CONTRACTS = [_REL, _absolute(_REL), _DWM]
